@@ -66,13 +66,13 @@ theorem Pushed.head_imm {P : Prog} {c : Cfg} {ins : Instr} {pushed : List Instr}
 /-! ### generic induction over reachable configurations -/
 
 theorem Reach.induct {P : Prog} {c0 c : Cfg} {I : Cfg → Prop} (h0 : I c0)
-    (hs : ∀ c, Reach P c0 c → I c → I (outCfg (Simpleline.step P c))) (hd : ∀ c, Reach P c0 c → I c → I c.dlv)
+    (hs : ∀ c, Reach P c0 c → I c → I (sOutCfg (Simpleline.step P c))) (hd : ∀ c, Reach P c0 c → I c → I c.dlv)
     (h : Reach P c0 c) : I c := by
   induction h with
   | init => exact h0
-  | step hr hstep ih => rw [outCfg_of_ok hstep]; exact hs _ hr ih
+  | step hr hstep ih => rw [sOutCfg_of_ok hstep]; exact hs _ hr ih
   | deliver hr hdl ih => rw [deliver_eq_dlv hdl]; exact hd _ hr ih
-  | halt hr hstep ih => rw [outCfg_of_error hstep]; exact hs _ hr ih
+  | halt hr hstep ih => rw [sOutCfg_of_error hstep]; exact hs _ hr ih
 
 theorem Reach.trans_reach {P : Prog} {c0 c c' : Cfg} (h : Reach P c0 c) (ht : Trans P c c') : Reach P c0 c' := by
   cases ht with
@@ -94,7 +94,7 @@ theorem Imm_init {c0 : Cfg} (h : Started c0) : Imm c0 := by
 theorem Imm_dlv {c : Cfg} (h : Imm c) : Imm c.dlv := by
   unfold Imm; rw [dlv_code]; exact h
 
-theorem Imm_step {P : Prog} {c : Cfg} (h : Imm c) : Imm (outCfg (step P c)) := by
+theorem Imm_step {P : Prog} {c : Cfg} (h : Imm c) : Imm (sOutCfg (step P c)) := by
   rcases hc : c.code with _ | ⟨ins, rest⟩
   · rw [step_nil P c hc]; exact h
   · obtain ⟨pushed, ⟨suf, hcode, hsuf⟩, hp⟩ := step_code P c ins rest hc
@@ -115,7 +115,7 @@ theorem Reach.imm {P : Prog} {c0 c : Cfg} (h0 : Started c0) (h : Reach P c0 c) :
 
 /-- an instruction that runs at once and stands at the head after a step was pushed by that step -/
 theorem head_imm_after {P : Prog} {c : Cfg} {ins : Instr} {rest : List Instr} (h : Imm c) (hc : c.code = ins :: rest)
-    {i : Instr} (hh : (outCfg (step P c)).code.head? = some i) (hi : i.immediate = true) : ImmPushedBy c ins i := by
+    {i : Instr} (hh : (sOutCfg (step P c)).code.head? = some i) (hi : i.immediate = true) : ImmPushedBy c ins i := by
   obtain ⟨pushed, ⟨suf, hcode, hsuf⟩, hp⟩ := step_code P c ins rest hc
   rw [hcode] at hh
   cases pushed with
